@@ -16,13 +16,21 @@ RULE = ('Graphs as C12 x 4 drawn queries (root in the graph, v in {None, node, u
         'invalid windows raise ValueError; a graph without snapshots gives an empty DAG and empty lists. '
         'non-trivial = the DAG has >= 3 edges over >= 2 distinct instants.')
 ASSUMPTIONS = ['e > t', "node ids are ints or '_'-free strings"]
-BUDGET = {'quick': {'cases': 6000, 'seconds': 50}, 'thorough': {'cases': 90000, 'seconds': 560}}
+BUDGET = {'quick': {'cases': 10000, 'seconds': 50}, 'thorough': {'cases': 90000, 'seconds': 560}}
 QUERIES = st.lists(pc.QUERY, min_size=4, max_size=4)
 TRIG = 'root_selfloop_in_window'
 
 
 def strategy(tier):
-    return st.tuples(pc.graph_strategy(), QUERIES).map(lambda x: dict(x[0], q=[list(q) for q in x[1]]))
+    return st.tuples(pc.graph_strategy(tier=tier), QUERIES).map(lambda x: dict(x[0], q=[list(q) for q in x[1]]))
+
+
+def exhaustive(tier):
+    if tier != 'thorough':
+        return None
+    return {'cases': pc.small_universe_cases(directed_step=16, loops=True),
+            'bound': 'every undirected presence relation on 3 nodes x instants {0,1,2} incl. two self-loop pairs (2^15 - 1) and every 16th '
+                     'directed one by bit index, each with all roots, v in {None, each node}, windows [first,last] and [first,first+1]'}
 
 
 def decode(name, ntype):
@@ -63,8 +71,12 @@ def run_case(case, rec):
         ok, out = safe(al.temporal_dag, G, u0, None, s, e)
         rec.check('C15.invalid_window', (not ok) and type(out) is ValueError,
                   lambda: 'temporal_dag(start=%r, end=%r) [%s] on ids %r gave %r' % (s, e, why, ids, out))
-    for q in case['q']:
-        u, v, start, end = pc.resolve(M, d.nodes, q)
+    if case.get('all_q'):
+        queries = [(u, v, s_, e_) for u in M.nodes for v in [None] + list(M.nodes)
+                   for (s_, e_) in sorted({(None, None), (ids[0], min(ids[0] + 1, ids[-1]))}, key=repr)]
+    else:
+        queries = [pc.resolve(M, d.nodes, q) for q in case['q']]
+    for (u, v, start, end) in queries:
         ctx = '%s temporal_dag(u=%r, v=%r, start=%r, end=%r)' % (case['cls'], u, v, start, end)
         ok, out = safe(al.temporal_dag, G, u, v, start, end)
         if not rec.check('C15.call', ok, lambda: '%s raised %r' % (ctx, out)):
